@@ -66,8 +66,38 @@ def othersBy (a : AbsState) (cutoff : Int) (stale : Bool) (keep : Option String)
   (a.servers.toList.filter fun (kv : Nat × SRow) =>
     (Decidable.decide (kv.2.updatedAt < cutoff) == stale) && some kv.2.svr.addr.render != keep).map fun (kv : Nat × SRow) => kv.2.svr.addr.render
 
+/-- (address, last write time) of every stored server of a dump -/
+def svWrites (dump : String) : List (String × Int) :=
+  (dump.splitOn ";").filterMap fun line =>
+    match line.splitOn "," with
+    | ["UP", a, t] => t.toInt?.map fun t => (a, t)
+    | _ => none
+
+/-- `cleaner <retention> <interval> <init> <script>`: the real cleaner component ran the passes of the script, the fake clock
+advancing by the interval before each (`faulttick`: the server cleaner's scan failed, that pass removes no server).
+Model: after the init items, per step: advance, `cleanServers2 retention` (unless faulted) and `cleanInstances retention`.
+Oracle on the implementation's final dump: after a healthy last pass no server last written before its cutoff remains. -/
+def handleCleaner (retS ivS initS script : String) (out : List String) : Verdict :=
+  match retS.toInt?, ivS.toInt?, kv out "dump" with
+  | some ret, some iv, some idump =>
+    let idump := if idump = "-" then "" else idump
+    let steps := script.splitOn "+"
+    let items := (if initS = "-" then [] else initS.splitOn ",") ++ steps.flatMap fun st =>
+      [s!"adv{iv}"] ++ (if st == "tick" then [s!"clean|{ret}"] else []) ++ [s!"cleanins|{ret}"]
+    match runInit {} { clock := epoch } items with
+    | none => .bad "C14 cleaner init"
+    | some s =>
+      let mdump := ";".intercalate (dumpState s.abs)
+      let stale := (svWrites idump).filter fun x => decide (x.2 < s.clock - ret)
+      let healthyLast := steps.getLast? == some "tick"
+      let ok := !healthyLast || stale.isEmpty
+      verdict (mdump == idump) ok
+        ((if ok then "" else s!"sig=stale-server-survives-pass:{stale.map (·.1)} ") ++ (if mdump == idump then "" else s!"model-dump={mdump}"))
+  | _, _, _ => .bad "C14 cleaner shape"
+
 def handle (args out : List String) : Verdict :=
   match args with
+  | ["cleaner", ret, iv, initS, script] => handleCleaner ret iv initS script out
   | [op, initS, clientS, _] =>
     match kv out "eff", kv out "calls", kv out "res", kv out "dump", modelRun {} (fun _ => 0) initS clientS ((kv out "eff").getD "-") with
     | some ieff, some icalls, some ires, some idump, some m =>
